@@ -11,39 +11,47 @@ def nats (xs : List Sexp) : List Nat := xs.filterMap asNat?
 def obs (l : OSet.T) : List Sexp :=
   [ofNats l, ofNats l.reverse, ofNat l.length, ofOptNat (OSet.first l), ofOptNat (OSet.last l)]
 
-/-- one op on the abstract model: (new state, result) -/
-def step (l : OSet.T) : Sexp → OSet.T × Sexp
-  | list [sym "add", int k] => (OSet.add k.toNat l, sym "ok")
-  | list [sym "discard", int k] => (OSet.discard k.toNat l, sym "ok")
-  | list [sym "remove", int k] =>
-    match OSet.remove k.toNat l with
-    | some l' => (l', sym "ok")
-    | none => (l, sym "KeyError")
-  | list [sym "pop-last"] =>
-    match OSet.popLast l with
-    | some (k, l') => (l', ofNat k)
-    | none => (l, sym "KeyError")
-  | list [sym "pop-first"] =>
-    match OSet.popFirst l with
-    | some (k, l') => (l', ofNat k)
-    | none => (l, sym "KeyError")
-  | list [sym "clear"] => (OSet.clear l, sym "ok")
-  | list (sym "ior" :: xs) => (OSet.ior l (nats xs), sym "ok")
-  | list (sym "iand" :: xs) => (OSet.iand l (OSet.fromIter (nats xs)), sym "ok")
-  | list (sym "isub" :: xs) => (OSet.isub l (nats xs), sym "ok")
-  | list (sym "ixor" :: xs) => (OSet.ixor l (nats xs), sym "ok")
-  | list [sym "isub-self"] => (OSet.clear l, sym "ok")
-  | list [sym "ixor-self"] => (OSet.clear l, sym "ok")
-  | list (sym "or" :: xs) => (l, ofNats (OSet.or l (OSet.fromIter (nats xs))))
-  | list (sym "and" :: xs) => (l, ofNats (OSet.and l (OSet.fromIter (nats xs))))
-  | list (sym "sub" :: xs) => (l, ofNats (OSet.sub l (OSet.fromIter (nats xs))))
-  | list (sym "xor" :: xs) => (l, ofNats (OSet.xor l (OSet.fromIter (nats xs))))
-  | list (sym "eq" :: xs) => (l, ofBool (OSet.eqIter l (nats xs)))
-  | list (sym "in" :: xs) => (l, list ((nats xs).map fun k => ofBool (decide (k ∈ l))))
-  | list (sym "iter-rm" :: xs) =>
-    let r := OSet.iterRemove (fun k => decide (k ∈ nats xs)) l
-    (r.2, ofNats r.1)
-  | _ => (l, sym "bad-op")
+/-- the state-changing operations, as the `Op` values the theorems quantify over -/
+def opOf : Sexp → Option OSet.Op
+  | list [sym "add", int k] => some (.add k.toNat)
+  | list [sym "discard", int k] => some (.discard k.toNat)
+  | list [sym "remove", int k] => some (.remove k.toNat)
+  | list [sym "pop-last"] => some .popLast
+  | list [sym "pop-first"] => some .popFirst
+  | list [sym "clear"] => some .clear
+  | list (sym "ior" :: xs) => some (.ior (nats xs))
+  | list (sym "iand" :: xs) => some (.iand (nats xs))
+  | list (sym "isub" :: xs) => some (.isub (nats xs))
+  | list (sym "ixor" :: xs) => some (.ixor (nats xs))
+  | list [sym "isub-self"] => some .clear
+  | list [sym "ixor-self"] => some .clear
+  | list (sym "iter-rm" :: xs) => some (.iterRm (nats xs))
+  | _ => none
+
+/-- what the operation returns (the state is computed by `OSet.apply`) -/
+def resultOf (l : OSet.T) : Sexp → Sexp
+  | list [sym "remove", int k] => if k.toNat ∈ l then sym "ok" else sym "KeyError"
+  | list [sym "pop-last"] => match OSet.popLast l with | some (k, _) => ofNat k | none => sym "KeyError"
+  | list [sym "pop-first"] => match OSet.popFirst l with | some (k, _) => ofNat k | none => sym "KeyError"
+  | list (sym "or" :: xs) => ofNats (OSet.or l (OSet.fromIter (nats xs)))
+  | list (sym "and" :: xs) => ofNats (OSet.and l (OSet.fromIter (nats xs)))
+  | list (sym "sub" :: xs) => ofNats (OSet.sub l (OSet.fromIter (nats xs)))
+  | list (sym "xor" :: xs) => ofNats (OSet.xor l (OSet.fromIter (nats xs)))
+  | list (sym "eq" :: xs) => ofBool (OSet.eqIter l (nats xs))
+  | list (sym "in" :: xs) => list ((nats xs).map fun k => ofBool (decide (k ∈ l)))
+  | list (sym "iter-rm" :: xs) => ofNats (OSet.iterRemove (fun k => decide (k ∈ nats xs)) l).1
+  | _ => sym "ok"
+
+def known : Sexp → Bool
+  | list (sym "or" :: _) | list (sym "and" :: _) | list (sym "sub" :: _) | list (sym "xor" :: _)
+  | list (sym "eq" :: _) | list (sym "in" :: _) => true
+  | _ => false
+
+/-- one op on the abstract model: (new state, result); every state change goes through `OSet.apply` -/
+def step (l : OSet.T) (op : Sexp) : OSet.T × Sexp :=
+  match opOf op with
+  | some o => (OSet.apply o l, resultOf l op)
+  | none => if known op then (l, resultOf l op) else (l, sym "bad-op")
 
 def run (ops : List Sexp) : Sexp :=
   let (_, outs) := ops.foldl (fun (acc : OSet.T × List Sexp) op =>
@@ -51,18 +59,27 @@ def run (ops : List Sexp) : Sexp :=
     (l', list (r :: obs l') :: acc.2)) ([], [])
   list outs.reverse
 
-/-! pointer level -/
+/-! pointer level: every state change goes through `OSetPtr.applyP`; the observers are read off the pointers -/
 
 def pobs (s : OSetPtr.Store) : List Sexp :=
-  [ofNats (OSetPtr.toList s), ofNats (OSetPtr.toListRev s)]
+  [ofNats (OSetPtr.toList s), ofNats (OSetPtr.toListRev s), ofNat (OSetPtr.len s),
+   ofOptNat (OSetPtr.ptrFirst s), ofOptNat (OSetPtr.ptrLast s)]
 
-def pstep (s : OSetPtr.Store) : Sexp → OSetPtr.Store × Sexp
-  | list [sym "add", int k] => (OSetPtr.add k.toNat s, sym "ok")
-  | list [sym "discard", int k] => (OSetPtr.discard k.toNat s, sym "ok")
-  | list (sym "iter-rm" :: xs) =>
-    let r := OSetPtr.iterRem (fun k => decide (k ∈ nats xs)) s.fresh s (s.next 0)
-    (r.2, ofNats r.1)
-  | _ => (s, sym "bad-op")
+def popOf : Sexp → Option OSetPtr.POp
+  | list [sym "add", int k] => some (.add k.toNat)
+  | list [sym "discard", int k] => some (.discard k.toNat)
+  | list (sym "iter-rm" :: xs) => some (.iterRm (nats xs))
+  | _ => none
+
+def pstep (s : OSetPtr.Store) (op : Sexp) : OSetPtr.Store × Sexp :=
+  match popOf op with
+  | some (.iterRm ks) =>
+    (OSetPtr.applyP (.iterRm ks) s, ofNats (OSetPtr.iterRem (fun k => decide (k ∈ ks)) s.fresh s (s.next 0)).1)
+  | some o => (OSetPtr.applyP o s, sym "ok")
+  | none =>
+    match op with
+    | list (sym "in" :: xs) => (s, list ((nats xs).map fun k => ofBool (OSetPtr.ptrMem k s)))
+    | _ => (s, sym "bad-op")
 
 def prun (ops : List Sexp) : Sexp :=
   let (_, outs) := ops.foldl (fun (acc : OSetPtr.Store × List Sexp) op =>
